@@ -864,7 +864,28 @@ pub async fn drive(case: &Case) -> Outcome {
             } else if !completed || !pending.is_empty() {
                 let hs = l.handshaked_at;
                 let clause = if hs[0].is_none() || hs[1].is_none() { "liveness-handshake" } else { "liveness-transfer" };
-                out.violate(clause, "", format!("bounded faults (last fired at {last_fault} ms) but at {completed_at} ms still pending: {pending:?}; failed: {failed:?}; handshaked_at {hs:?}"), completed_at);
+                // One failure mode gets a site of its own, so that it can be listed without hiding any other stall: every
+                // pending operation is a writer's flush/shutdown whose peer reader has already read the whole stream to
+                // EOF, while a bottleneck link still holds a backlog of more than a second at the cap, long after the
+                // application stopped writing — the data arrived, its acknowledgements are never honoured, the endpoint
+                // keeps retransmitting at link rate.
+                let site = {
+                    let now = Instant::now();
+                    let writer_delivered = |p: &String| -> Option<usize> {
+                        let (side, rest) = p.split_once('.')?;
+                        let idx = rest.strip_prefix('w')?;
+                        let (peer, dir) = if side == "c" { ("s", crate::net::C2S) } else { ("c", crate::net::S2C) };
+                        l.finished.get(&format!("{peer}.r{idx}")).filter(|(_, ok, _)| *ok).map(|_| dir)
+                    };
+                    let dirs: Vec<Option<usize>> = pending.iter().map(writer_delivered).collect();
+                    let saturated = |dir: usize| {
+                        case.net.bandwidth > 0
+                            && g.link_free_at[dir].is_some_and(|f| f.saturating_duration_since(now) > Duration::from_secs(1))
+                    };
+                    // (the acknowledgements of a writer in the other direction cross the same saturated queue)
+                    if !pending.is_empty() && dirs.iter().all(|d| d.is_some()) && (saturated(0) || saturated(1)) { "delivered-but-unacked:bottleneck-saturated" } else { "" }
+                };
+                out.violate(clause, site, format!("bounded faults (last fired at {last_fault} ms) but at {completed_at} ms still pending: {pending:?}; failed: {failed:?}; handshaked_at {hs:?}"), completed_at);
             } else if !failed.is_empty() {
                 out.violate("liveness-transfer", "failed", format!("bounded faults but operations failed: {failed:?}"), completed_at);
             } else {
